@@ -28,6 +28,10 @@ pub struct Case {
     /// the input is handed over as a sub-slice starting this many bytes into a larger buffer
     #[serde(default)]
     pub slice_offset: usize,
+    /// call history on this thread: the hashed-N constructor is first called with this other
+    /// read name (a fresh thread has no such history)
+    #[serde(default)]
+    pub warm_name: Option<Vec<u8>>,
 }
 
 /// Independent scalar table.
@@ -143,8 +147,14 @@ impl Harness for C16 {
             bytes,
             name,
             force_scalar: rng.chance(1, 2),
-            second_thread: rng.chance(1, 64),
+            second_thread: rng.chance(1, 16),
             slice_offset: if rng.chance(1, 2) { 0 } else { rng.range(1, 63) },
+            warm_name: if rng.chance(1, 2) {
+                let wl = rng.range(0, 12);
+                Some((0..wl).map(|_| rng.below(256) as u8).collect())
+            } else {
+                None
+            },
         }
     }
 
@@ -268,6 +278,10 @@ impl Harness for C16 {
             }
         }
         // hashed-N constructor
+        if let Some(w) = &c.warm_name {
+            let _ = std::hint::black_box(DnaString::from_acgt_bytes_hashn(b"ACGNNACGTNACGT", w));
+            rec.count("reach_hashn_after_other_name");
+        }
         let h1 = with_path(c.force_scalar, || DnaString::from_acgt_bytes_hashn(&c.bytes, &c.name));
         let h2 = with_path(c.force_scalar, || DnaString::from_acgt_bytes_hashn(&c.bytes, &c.name));
         // a function of (read name, position) - hence not of the CPU dispatch either
@@ -365,6 +379,11 @@ impl Harness for C16 {
         if c.slice_offset != 0 {
             let mut x = c.clone();
             x.slice_offset = 0;
+            out.push(x);
+        }
+        if c.warm_name.is_some() {
+            let mut x = c.clone();
+            x.warm_name = None;
             out.push(x);
         }
         out
